@@ -28,7 +28,7 @@ PROPS = {
   "assumptions": ["rtt in [0,2^62], in-flight in [0,2^31)", "Vegas smoothing >= 8*2^-53*max (theorem hypothesis)", "window sums below 2^63 for the windowed wrapper"],
  },
  "C06": {
-  "tests": ["TestC06"],
+  "tests": ["TestC06", "TestC06Concurrent"],
   "rule": "reachable states by random prefixes (as C04), every drop sample checked for non-increase and AIMD's exact rule, then a sustained run of "
           "drops at the current baseline RTT until the floor; non-trivial = a drop sample / a completed floor run; distinct by (algorithm, estimate, inputs)",
   "level_text": "C06_aimd_exact (the decrease rule with the binary64 product) and C06_aimd_nonincrease proved for all limits < 2^52 and ratios in [0,1]; "
@@ -40,7 +40,7 @@ PROPS = {
   "technique": "Coq/Flocq theorems for AIMD, Vegas and Gradient non-increase over all histories + differential replay and drop-run oracle for floor reachability",
  },
  "C07": {
-  "tests": ["TestC07"],
+  "tests": ["TestC07", "TestC07Concurrent"],
   "rule": "random prefixes, every non-drop sample with in-flight below half the estimate (below the estimate for AIMD) checked for no raise; then a healthy saturated "
           "run at the baseline RTT until within one of the ceiling; non-trivial = an app-limited sample / a completed recovery run",
   "level_text": "C07_app_limited_{aimd,vegas,gradient,gradient2} proved for all states and samples (stored estimate untouched, nobody notified); C07_aimd_recovers proved; "
@@ -106,7 +106,7 @@ PROPS = {
   "technique": "Coq inductive invariant over all operation sequences + differential replay",
  },
  "C05": {
-  "tests": ["TestC05"],
+  "tests": ["TestC05", "TestC05Races"],
   "rule": "default limiter over all four strategy kinds with a scripted limit double (estimates 0, negative, repeated, large), random histories plus closing bursts that fill and close windows "
           "at instants around the period end; after every forwarded window the strategy limit and every share are checked; non-trivial = a distinct closed window",
   "level_text": "C05_sync_init, C05_sync_update (same step as the forwarded sample), C05_shares_follow (SetLimit keeps the invariant 'every live bin has the share of the current total').",
@@ -177,9 +177,9 @@ PROPS = {
   "technique": "Coq/Flocq monotonicity theorem + differential replay of twin runs",
  },
  "C20": {
-  "tests": ["TestC20", "TestC20Registry"],
+  "tests": ["TestC20", "TestC20Strategies", "TestC20Registry"],
   "rule": "all six limit kinds (plain, traced) on a recording registry: every sample's emissions (kind = how the metric was registered, name, value) are compared with the model and with the oracle; "
-          "strategies' in-flight samples and limit gauges are checked in the C01/C03 drivers; the go-metrics registry is driven through random Start/Stop/Register/Tick sequences on a virtual clock "
+          "strategies' in-flight samples and limit gauges are checked by driving all four strategies through random acquire/release/SetLimit histories (including limits lowered below the tokens outstanding); the go-metrics registry is driven through random Start/Stop/Register/Tick sequences on a virtual clock "
           "and polls are counted per period; the datadog registry is exercised once over a loopback UDP socket in real time; non-trivial = a distinct sample emission / tick situation",
   "level_text": "C20_{aimd,vegas,gradient,gradient2}_emits (every branch of every algorithm emits RTT and in-flight once, drop counter iff drop) and C20_registry_* (life cycle over all operation sequences) proved; "
                 "the registry model is tied to metric_registry/gometrics by replay of poll counts; the datadog backend is only observed (partial).",
